@@ -17,7 +17,7 @@ RULE = ("E1: (a) every ordered pair of labelled DAGs on <=4 nodes for is_iequiva
         "(x, y | Z-set) and value context, get_independencies, minimal_imap for every variable order, is_imap both ways. "
         "non-trivial = distinct cases whose reference answer is 'equivalent'/'independent' or closure adds statements")
 BOUNDS = {"quick": "(a) n<=4: 543^2 pairs; (b) 3 vars: all 512 sets, 4 vars: sets of size<=2 (1540); (c) 3 variables cards (2,2,2),(2,3,2)",
-          "thorough": "(b) adds 4 vars size 3 (26235 sets)"}
+          "thorough": "(a) adds every ordered pair of 5-node DAGs sharing a skeleton (1 223 521 pairs); (b) adds 4 vars size 3 (26235 sets); (c) event sets on all 302 classes of 5-node DAGs"}
 EXHAUSTIVE = {"quick": True, "thorough": True}
 ASSUMPTIONS = ["assertions are well-formed (pairwise disjoint, non-empty X and Y)", "contexts have positive probability",
                "numeric independence uses the library's documented allclose tolerance; tables keep dependencies >= 1e-3"]
@@ -31,6 +31,10 @@ def groups(tier, seed):
         out.append({"part": "ieq", "n": n, "lo": 0, "hi": len(all_dags(n))})
     for i in range(0, 543, 8):
         out.append({"part": "ieq", "n": 4, "lo": i, "hi": min(i + 8, 543)})
+    if tier == "thorough":
+        # five nodes: every ordered pair of DAGs that share their skeleton (1 223 521 pairs; other pairs differ already in the skeleton)
+        for i in range(0, 1024, 16):
+            out.append({"part": "ieq5", "lo": i, "hi": i + 16})
     for i in range(0, 512, 16):
         out.append({"part": "clo3", "lo": i, "hi": i + 16})
     sts = all_statements("ABCD")
@@ -79,6 +83,8 @@ def run_group(g, tier):
         for i in range(g["lo"], g["hi"]):
             for j in range(len(lst)):
                 _ieq(st, g["n"], i, j)
+    elif g["part"] == "ieq5":
+        _ieq5(st, g["lo"], g["hi"])
     elif g["part"] == "clo3":
         sts = all_statements("ABC")
         for mask in range(g["lo"], g["hi"]):
@@ -99,6 +105,8 @@ def replay(case):
     p = case["part"]
     if p == "ieq":
         _ieq(st, case["n"], case["i"], case["j"])
+    elif p == "ieq5":
+        _ieq5(st, case["skeleton"], case["skeleton"] + 1, only=(case["i"], case["j"]))
     elif p in ("clo3", "clo4"):
         u = "ABC" if p == "clo3" else "ABCD"
         _clo(st, u, case["set"], all_statements(u))
@@ -110,6 +118,47 @@ def replay(case):
         _jpd(st, case["g"])
         st.violations = [v for v in st.violations if v["site"] == case.get("site")]
     return st.violations[:5]
+
+
+_SK5 = []
+
+
+def _ieq5(st, lo, hi, only=None):
+    from pgmpy.base import DAG
+
+    if not _SK5:
+        by = {}
+        for e in all_dags(5):
+            by.setdefault(frozenset(frozenset(x) for x in e), []).append(e)
+        _SK5.extend(sorted(by.values(), key=lambda v: (len(v), v)))
+    for si in range(lo, min(hi, len(_SK5))):
+        members = _SK5[si]
+        objs = []
+        for e in members:
+            d = DAG()
+            d.add_nodes_from(range(5))
+            d.add_edges_from(e)
+            objs.append((d, G(5, e).vstructs()))
+        st.states += 1
+        for i in range(len(objs)):
+            for j in range(len(objs)):
+                if only is not None and only != (i, j):
+                    continue
+                st.evals += 1
+                st.transitions += 1
+                exp = objs[i][1] == objs[j][1]
+                case = {"part": "ieq5", "skeleton": si, "i": i, "j": j, "e1": [list(x) for x in members[i]], "e2": [list(x) for x in members[j]]}
+                try:
+                    got = objs[i][0].is_iequivalent(objs[j][0])
+                except Exception as ex:
+                    st.violation("is_iequivalent", "exception", case, repr(ex)[:200])
+                    continue
+                st.compared += 1
+                if exp and i != j:
+                    st.nt((si, i, j))
+                if bool(got) != exp:
+                    st.violation("is_iequivalent", "wrong-verdict", case, bool(got), exp)
+                st.outcome(int(exp))
 
 
 def _ieq(st, n, i, j):
